@@ -32,8 +32,12 @@ def clang_ast(source_text, filt, extra_inc=()):
     key = (source_text, filt)
     if key in _ast_cache:
         return _ast_cache[key]
-    work = os.environ.get("VERIF_WORK", "/tmp")
-    os.makedirs(work, exist_ok=True)
+    # the TU lives in a directory of its own: `#include "x.cpp"` looks beside the TU first, and a stray
+    # file of that name in a shared scratch directory must never be picked up instead of /repo's
+    import tempfile, shutil
+    base = os.environ.get("VERIF_WORK", "/tmp")
+    os.makedirs(base, exist_ok=True)
+    work = tempfile.mkdtemp(prefix="cxx2lean_tu.", dir=base)
     tu = os.path.join(work, "cxx2lean_tu_%s.cpp" % hashlib.sha1(source_text.encode()).hexdigest()[:10])
     with open(tu, "w") as f:
         f.write(source_text)
@@ -44,7 +48,9 @@ def clang_ast(source_text, filt, extra_inc=()):
         cmd += ["-I", i]
     cmd += ["-Xclang", "-ast-dump=json", "-Xclang", "-ast-dump-filter=" + filt, tu]
     p = subprocess.run(cmd, capture_output=True, text=True)
-    if p.returncode != 0 and not p.stdout.strip():
+    shutil.rmtree(work, ignore_errors=True)
+    if p.returncode != 0:
+        # a TU that does not compile (missing generated header, syntax error) gives a partial AST: never translate that
         raise Unsupported("clang failed on %s: %s" % (filt, p.stderr[:2000]))
     s = p.stdout
     dec = json.JSONDecoder()
@@ -58,9 +64,23 @@ def clang_ast(source_text, filt, extra_inc=()):
         d, j = dec.raw_decode(s, i)
         docs.append(d)
         i = j
-    os.unlink(tu)
     _ast_cache[key] = docs
     return docs
+
+
+def prefetch(pairs):
+    """run clang for several (TU text, filter) pairs concurrently; results land in the cache"""
+    from concurrent.futures import ThreadPoolExecutor
+    todo = [p for p in dict.fromkeys(pairs) if p not in _ast_cache]
+    if len(todo) < 2:
+        return
+    def one(p):
+        try:
+            clang_ast(*p)
+        except Unsupported:
+            pass          # reported when the unit asks for this AST itself
+    with ThreadPoolExecutor(max_workers=min(8, len(todo))) as ex:
+        list(ex.map(one, todo))
 
 
 def find_all(node, pred, out=None):
@@ -1148,6 +1168,1094 @@ def gen_awgn():
 
 
 # ------------------------------------------------------------------------------------------
+# Steps: per-sample LOOP BODIES of the stateful processors as Lean step functions
+#
+#   for (int i = 0; i < n; ++i) { BODY }        -->   def step (p : Params) (s : State) (x_i : T) : State × out…
+#
+# members of the object (`this`, or a reference parameter such as `AgcImpl& agc`) that BODY (and the member
+# functions it calls) only reads form the Params structure, those it writes the State structure; `x[i]` is the
+# input sample, `out[i] = …` / `res.gain[i] = …` are the outputs.  Everything outside the subset raises
+# Unsupported (the GEN obligation then fails: that is the intended alarm, never a guess).
+
+LEAN_KEYWORDS = {"end", "at", "from", "in", "do", "then", "else", "if", "fun", "let", "have", "show", "with", "match",
+                 "open", "by", "where", "def", "theorem", "instance", "class", "structure", "namespace", "section",
+                 "variable", "universe", "import", "for", "return", "mut", "try", "catch", "Type", "Prop", "Sort", "this"}
+
+JOIN = "\x00JOIN\x00"
+FALLOFF = "\x00FALLOFF\x00"
+
+
+def unwrap(n):
+    """strip value-preserving wrappers"""
+    while n.get("kind") in ("ParenExpr", "ExprWithCleanups", "MaterializeTemporaryExpr", "CXXBindTemporaryExpr", "ConstantExpr") or \
+            (n.get("kind") == "ImplicitCastExpr" and n.get("castKind") in ("LValueToRValue", "NoOp", "FunctionToPointerDecay",
+                                                                           "UncheckedDerivedToBase", "DerivedToBase")):
+        n = n["inner"][0]
+    return n
+
+
+def has_exit(n):
+    return bool(find_all(n, lambda x: x.get("kind") in ("ReturnStmt", "CXXThrowExpr", "BreakStmt", "ContinueStmt", "GotoStmt")))
+
+
+def canon_type(t):
+    """C++ type as written in the AST, canonicalised for the member-type tables"""
+    t = t.replace("dsplib::", "")
+    t = re.sub(r"\s+", " ", t).strip()
+    return t
+
+
+ARRAY_REAL_T = {"base_array<double>", "arr_real", "base_array<real_t>"}
+ARRAY_CX_T = {"base_array<cmplx_t>", "arr_cmplx"}
+# integer types with their width (bits) and signedness: emitted as comments and CHECKED against the unit's table
+INT_WIDTH = {"int": (32, True), "unsigned int": (32, False), "uint32_t": (32, False), "int32_t": (32, True),
+             "long": (64, True), "unsigned long": (64, False), "uint64_t": (64, False), "int64_t": (64, True),
+             "size_t": (64, False), "short": (16, True), "unsigned short": (16, False), "uint16_t": (16, False),
+             "long long": (64, True), "unsigned long long": (64, False)}
+
+
+def lean_type_of(cxx, subobj_types=None):
+    """Lean type of a data member / local of C++ type `cxx` (canonical); None = not representable"""
+    t = canon_type(strip_type(cxx))
+    k = kind_of_type(t)
+    if k == "real":
+        return "α"
+    if k == "int":
+        return "Int"
+    if k == "cx":
+        return "Cx α"
+    if t in ARRAY_REAL_T:
+        return "Array α"
+    if t in ARRAY_CX_T:
+        return "Array (Cx α)"
+    if subobj_types and t in subobj_types:
+        return subobj_types[t]
+    return None
+
+
+class StepTr(Tr):
+    """statement / expression translator for a member function or a loop body of a stateful object.
+
+    obj        : None (= `this`) or the name of the reference parameter that holds the object (`agc`)
+    members    : C++ member name -> (lean field, lean type, C++ type)
+    state      : set of C++ member names placed in the State structure `s` (all others: Params `p`);
+                 `single` = True puts every member into one structure `self` (sub-objects such as MAFilter)
+    methods    : member function name -> dict(lean=…, effect=bool, extern=callable|None): calls `this->m(args)`
+    subobjs    : member name -> dict(ops={method name: lean step function}): calls `obj.member(args)` /
+                 `obj.member.process(args)` on a member that is itself a generated state machine
+    loop       : dict(var=loop variable, input=array parameter, sample=lean name of x[i],
+                      outputs={C++ array name: lean cell name}) or None
+    """
+
+    def __init__(self, obj=None, members=None, state=None, single=False, methods=None, subobjs=None, loop=None,
+                 user_calls=None, effect=True):
+        super().__init__(this_name="self", user_calls=user_calls or {})
+        self.obj = obj
+        self.members = members or {}
+        self.state = set(state or ())
+        self.single = single
+        self.methods = methods or {}
+        self.subobjs = subobjs or {}
+        self.loop = loop
+        self.effect = effect           # does the function being translated write the state (returns (s, v))?
+        self.pre = []                  # hoisted lets of effectful calls, flushed in front of the statement
+        self.reads = set()             # members read
+        self.writes = set()            # members written
+        self.frames = []               # join frames: dict(decl=set, assigned=list)
+        self.bound = {"self"} if single else {"p", "s"}   # lean names in scope
+        self.cond_depth = 0
+        self.n_effects = 0
+        self.uses_eps = False
+        self.cells_written = []
+        self.in_loop = loop is not None
+
+    # ---------------------------------------------------------------- names
+    def var(self, name):
+        v = super().var(name)
+        if v in LEAN_KEYWORDS or v in ("p", "s", "self", "eps", "α"):
+            v = v + "'"
+        return v
+
+    def svar(self):
+        return "self" if self.single else "s"
+
+    def is_obj(self, n):
+        n = unwrap(n)
+        if n.get("kind") == "UnaryOperator" and n.get("opcode") == "*":
+            n = unwrap(n["inner"][0])
+        if self.obj is None:
+            return n.get("kind") == "CXXThisExpr"
+        return n.get("kind") == "DeclRefExpr" and n.get("referencedDecl", {}).get("name") == self.obj and \
+            n["referencedDecl"].get("kind") == "ParmVarDecl"
+
+    def member_of_obj(self, n):
+        """C++ member name if n is `obj.member` / `this->member`, else None"""
+        n = unwrap(n)
+        if n.get("kind") == "MemberExpr" and self.is_obj(n["inner"][0]):
+            return n["name"]
+        return None
+
+    def mref(self, name, write=False):
+        if name not in self.members:
+            raise Unsupported("member %s is not in the unit's member table" % name)
+        (self.writes if write else self.reads).add(name)
+        f = self.members[name][0]
+        if self.single:
+            return "self.%s" % f
+        return ("s.%s" if name in self.state else "p.%s") % f
+
+    # ---------------------------------------------------------------- expressions
+    def e_CXXThisExpr(self, n):
+        raise Unsupported("`this` used as a value")
+
+    def e_MemberExpr(self, n):
+        m = self.member_of_obj(n)
+        if m is not None:
+            return self.mref(m)
+        base = unwrap(n["inner"][0])
+        if base.get("kind") == "DeclRefExpr" and kind_of_type(qt(base)) == "cx" and n["name"] in ("re", "im"):
+            return "%s.%s" % (self.e(base), n["name"])
+        raise Unsupported("member access %s on %s" % (n.get("name"), base.get("kind")))
+
+    def e_DeclRefExpr(self, n):
+        ref = n.get("referencedDecl", {})
+        name = ref.get("name")
+        if self.loop and name == self.loop["var"]:
+            raise Unsupported("loop index `%s` used other than as x[%s] / out[%s]" % (name, name, name))
+        if self.obj is not None and name == self.obj:
+            raise Unsupported("object parameter `%s` used as a value" % name)
+        if ref.get("kind") in ("ParmVarDecl", "VarDecl"):
+            v = self.var(name)
+            if v not in self.bound:
+                raise Unsupported("reference to `%s`, which is not a local of the translated body" % name)
+            return v
+        raise Unsupported("DeclRefExpr to %s %s" % (ref.get("kind"), name))
+
+    def e_BinaryOperator(self, n):
+        op = n["opcode"]
+        if op in ("&&", "||"):
+            self.cond_depth += 1
+            try:
+                return super().e_BinaryOperator(n)
+            finally:
+                self.cond_depth -= 1
+        if op in ("==", "!="):
+            l, r = n["inner"]
+            kl, kr = kind_of_type(qt(l)), kind_of_type(qt(r))
+            if kl == "real" and kr == "real":
+                # IEEE `==` on reals: a ≤ b ∧ b ≤ a (false on NaN, true for -0 == +0; no DecidableEq on the scalar)
+                a, b = self.e(l), self.e(r)
+                t = "(%s ≤ %s ∧ %s ≤ %s)" % (a, b, b, a)
+                return t if op == "==" else "(¬ %s)" % t
+            if not (kl == "int" and kr == "int"):
+                raise Unsupported("%s on operands of type %s / %s" % (op, qt(l), qt(r)))
+        if op == ",":
+            raise Unsupported("comma operator")
+        if op in ("=",) or op.endswith("=") and op not in ("<=", ">=", "==", "!="):
+            raise Unsupported("assignment used as an expression")
+        return super().e_BinaryOperator(n)
+
+    def e_CompoundAssignOperator(self, n):
+        raise Unsupported("compound assignment used as an expression")
+
+    def e_UnaryOperator(self, n):
+        if n["opcode"] in ("++", "--"):
+            raise Unsupported("increment used as an expression")
+        if n["opcode"] in ("*", "&"):
+            raise Unsupported("pointer operation %s" % n["opcode"])
+        return super().e_UnaryOperator(n)
+
+    def e_ConditionalOperator(self, n):
+        self.cond_depth += 1
+        try:
+            return super().e_ConditionalOperator(n)
+        finally:
+            self.cond_depth -= 1
+
+    def cell(self, n):
+        """classify `a[idx]` (CXXOperatorCallExpr operator[]): ('sample',) | ('out', cell) | ('member', name, idx) | None"""
+        if n.get("kind") != "CXXOperatorCallExpr" or self.callee_name(n) != "operator[]":
+            return None
+        callee_t = qt(unwrap(n["inner"][0]))
+        if not re.search(r"\((int|size_t|unsigned long)\)", callee_t):
+            raise Unsupported("operator[] overload %s" % callee_t)
+        base, idx = unwrap(n["inner"][1]), unwrap(n["inner"][2])
+        is_loop_idx = (self.loop is not None and idx.get("kind") == "DeclRefExpr" and
+                       idx["referencedDecl"].get("name") == self.loop["var"])
+        m = self.member_of_obj(base)
+        if m is not None:
+            lt = self.members.get(m, (None, None, None))[1]
+            if lt not in ("Array α", "Array (Cx α)"):
+                raise Unsupported("subscript on member %s of type %s" % (m, self.members.get(m, (0, 0, "?"))[2]))
+            return ("member", m, n["inner"][2])
+        if not is_loop_idx:
+            raise Unsupported("subscript of a non-member array with an index other than the loop variable")
+        if base.get("kind") == "DeclRefExpr" and base["referencedDecl"].get("kind") == "ParmVarDecl":
+            if base["referencedDecl"]["name"] != self.loop["input"]:
+                raise Unsupported("subscript on parameter %s" % base["referencedDecl"]["name"])
+            return ("sample",)
+        name = None
+        if base.get("kind") == "DeclRefExpr" and base["referencedDecl"].get("kind") == "VarDecl":
+            name = base["referencedDecl"]["name"]
+        elif base.get("kind") == "MemberExpr" and unwrap(base["inner"][0]).get("kind") == "DeclRefExpr" and \
+                unwrap(base["inner"][0])["referencedDecl"].get("kind") == "VarDecl":
+            name = base["name"]
+        if name is None or name not in self.loop["outputs"]:
+            raise Unsupported("subscript on %s, which is not an output array of the loop" % (name or base.get("kind")))
+        return ("out", self.loop["outputs"][name])
+
+    def arr_default(self, lt):
+        return "(Fn.ofInt (0 : Int))" if lt == "Array α" else "(Cx.mk (Fn.ofInt (0 : Int)) (Fn.ofInt (0 : Int)))"
+
+    def e_CXXOperatorCallExpr(self, n):
+        name = self.callee_name(n)
+        if name == "operator[]":
+            c = self.cell(n)
+            if c[0] == "sample":
+                return self.loop["sample"]
+            if c[0] == "out":
+                if c[1] not in self.bound:
+                    raise Unsupported("output cell %s read before it is written" % c[1])
+                return c[1]
+            lt = self.members[c[1]][1]
+            return "(arrGet %s %s %s)" % (self.arr_default(lt), self.mref(c[1]), self.e(c[2]))
+        if name == "operator()":
+            m = self.member_of_obj(n["inner"][1])
+            if m is not None and m in self.subobjs:
+                return self.subobj_call(m, "operator()", n["inner"][2:])
+            raise Unsupported("operator() on %s" % unwrap(n["inner"][1]).get("kind"))
+        op = name.replace("operator", "")
+        args = n["inner"][1:]
+        if op in ("+", "-", "*", "/") and len(args) == 2:
+            ka, kb = kind_of_type(qt(args[0])), kind_of_type(qt(args[1]))
+            a, b = self.e(args[0]), self.e(args[1])
+            if ka == "cx" and kb == "cx":
+                return "(%s %s %s)" % (a, op, b)
+            if ka == "cx" and kb == "real":
+                return "(Cx.%s %s %s)" % ({"+": "addr", "-": "subr", "*": "mulr", "/": "divr"}[op], a, b)
+            if ka == "real" and kb == "cx":
+                return "(Cx.%s %s %s)" % ({"+": "radd", "-": "rsub", "*": "rmul", "/": "rdiv"}[op], a, b)
+            raise Unsupported("operator%s on %s, %s" % (op, qt(args[0]), qt(args[1])))
+        if op == "-" and len(args) == 1 and kind_of_type(qt(args[0])) == "cx":
+            return "(-%s)" % self.e(args[0])
+        raise Unsupported("operator call %s/%d" % (name, len(args)))
+
+    def hoist(self, text):
+        """an effectful call: evaluated exactly once, in front of the statement it occurs in"""
+        if self.cond_depth:
+            raise Unsupported("state-changing call inside a conditionally evaluated expression")
+        self.n_effects += 1
+        if self.n_effects > 1:
+            raise Unsupported("more than one state-changing call in one statement (evaluation order)")
+        return text
+
+    def subobj_call(self, m, meth, arg_nodes):
+        so = self.subobjs[m]
+        if meth not in so["ops"]:
+            raise Unsupported("call of %s on sub-object %s" % (meth, m))
+        args = [self.e(a) for a in arg_nodes if a.get("kind") != "CXXDefaultArgExpr"]
+        cur = self.mref(m)
+        self.mref(m, write=True)
+        self.hoist(None)
+        r = "r_%s" % self.members[m][0]
+        k = 0
+        while r in self.bound:
+            k += 1
+            r = "r_%s_%d" % (self.members[m][0], k)
+        self.bound.add(r)
+        self.pre.append("let %s := %s %s %s\n" % (r, so["ops"][meth], cur, " ".join(args)))
+        self.pre.append(self.set_member(m, "%s.1" % r))
+        return "%s.2" % r
+
+    def set_member(self, m, val):
+        self.mref(m, write=True)
+        self.note_assigned(self.svar())
+        return "let %s := { %s with %s := %s }\n" % (self.svar(), self.svar(), self.members[m][0], val)
+
+    def e_CXXMemberCallExpr(self, n):
+        me = unwrap(n["inner"][0])
+        name = me["name"]
+        base = me["inner"][0]
+        arg_nodes = [a for a in n["inner"][1:] if a.get("kind") != "CXXDefaultArgExpr"]
+        m = self.member_of_obj(base)
+        if m is not None and m in self.subobjs:
+            return self.subobj_call(m, name, arg_nodes)
+        if self.is_obj(base) and name in self.methods:
+            md = self.methods[name]
+            args = [self.e(a) for a in arg_nodes]
+            if md.get("extern"):
+                return md["extern"](self, args)
+            for f in md.get("reads", ()):
+                self.mref(f)
+            if not md["effect"]:
+                return "(%s p %s)" % (md["lean"], " ".join(args)) if not md.get("reads_state") else \
+                    "(%s p s %s)" % (md["lean"], " ".join(args))
+            for f in md.get("writes", ()):
+                self.mref(f, write=True)
+            self.hoist(None)
+            r = "r_%s" % md["lean"]
+            k = 0
+            while r in self.bound:
+                k += 1
+                r = "r_%s_%d" % (md["lean"], k)
+            self.bound.add(r)
+            self.pre.append("let %s := %s p s %s\n" % (r, md["lean"], " ".join(args)))
+            self.pre.append("let s := %s.1\n" % r)
+            self.note_assigned("s")
+            return "%s.2" % r
+        if name in ("abs2", "conj") and kind_of_type(qt(unwrap(base))) == "cx":
+            return "(Cx.%s %s)" % (name, self.e(base))
+        raise Unsupported("member call %s" % name)
+
+    # ---------------------------------------------------------------- statements
+    def note_assigned(self, v):
+        for fr in reversed(self.frames):
+            if v in fr["decl"]:
+                return
+            if v not in fr["assigned"]:
+                fr["assigned"].append(v)
+
+    def declare(self, v):
+        if self.frames:
+            self.frames[-1]["decl"].add(v)
+        self.bound.add(v)
+
+    def flush(self):
+        t = "".join(self.pre)
+        self.pre = []
+        self.n_effects = 0
+        return t
+
+    def local_type(self, d):
+        lt = lean_type_of(qt(d))
+        if lt not in ("α", "Int", "Cx α"):
+            raise Unsupported("local `%s` of type %s" % (d.get("name"), qt(d)))
+        return lt
+
+    def assign(self, lhs, r):
+        lhs = unwrap(lhs)
+        k = lhs.get("kind")
+        if k == "DeclRefExpr" and lhs["referencedDecl"].get("kind") == "VarDecl":
+            if self.loop and lhs["referencedDecl"]["name"] == self.loop["var"]:
+                raise Unsupported("assignment to the loop variable")
+            v = self.var(lhs["referencedDecl"]["name"])
+            if v not in self.bound:
+                raise Unsupported("assignment to `%s`, which is not a local of the translated body" % v)
+            self.note_assigned(v)
+            return "let %s := %s\n" % (v, r)
+        m = self.member_of_obj(lhs)
+        if m is not None:
+            if self.members.get(m, (0, "")) [1] not in ("α", "Int", "Cx α"):
+                raise Unsupported("assignment to member %s of type %s" % (m, self.members.get(m, (0, 0, "?"))[2]))
+            return self.set_member(m, r)
+        if k == "CXXOperatorCallExpr":
+            c = self.cell(lhs)
+            if c is not None and c[0] == "out":
+                if self.frames:
+                    raise Unsupported("output cell %s written inside a branch" % c[1])
+                if c[1] in self.bound:
+                    raise Unsupported("output cell %s written twice" % c[1])
+                self.bound.add(c[1])
+                self.cells_written.append(c[1])
+                ct = self.loop.get("cell_types", {}).get(c[1])
+                return "let %s%s := %s\n" % (c[1], (" : %s" % ct) if ct else "", r)
+            if c is not None and c[0] == "member":
+                lt = self.members[c[1]][1]
+                cur = self.mref(c[1])
+                return self.set_member(c[1], "(arrSet %s %s %s)" % (cur, self.e(c[2]), r))
+            if c is not None and c[0] == "sample":
+                raise Unsupported("write to the input array")
+        raise Unsupported("assignment target %s" % k)
+
+    def stmts(self, lst, final, throws=False):
+        if not lst:
+            return final
+        s, rest = lst[0], lst[1:]
+        k = s.get("kind")
+        cont = lambda: self.stmts(rest, final)
+        if k == "CompoundStmt":
+            # (scoping: a declaration inside a nested block shadows until the end of the enclosing list — names are
+            #  unique in the translated bodies or the Lean shadowing coincides; nested plain blocks are rare)
+            if any(c.get("kind") == "DeclStmt" for c in s.get("inner", [])) and rest:
+                raise Unsupported("nested block with declarations")
+            return self.stmts(list(s.get("inner", [])) + rest, final)
+        if k == "NullStmt":
+            return cont()
+        if k == "DeclStmt":
+            text = ""
+            for d in s["inner"]:
+                if d.get("kind") != "VarDecl" or "inner" not in d:
+                    raise Unsupported("declaration without initialiser")
+                if d.get("storageClass") == "static":
+                    raise Unsupported("static local %s" % d.get("name"))
+                init = [c for c in d["inner"] if c.get("kind") not in ("FullComment",)][0]
+                lt = self.local_type(d)
+                val = self.e(init)
+                v = self.var(d["name"])
+                text += self.flush() + "let %s : %s := %s\n" % (v, lt, val)
+                self.declare(v)
+            return text + cont()
+        if k == "ReturnStmt":
+            if self.in_loop:
+                raise Unsupported("return inside the sample loop")
+            if not s.get("inner"):
+                return self.svar() if self.effect else "()"
+            v = self.e(s["inner"][0])
+            pre = self.flush()
+            return pre + (("(%s, %s)" % (self.svar(), v)) if self.effect else v)
+        if k in ("BreakStmt", "ContinueStmt", "GotoStmt", "CXXThrowExpr", "ForStmt", "WhileStmt", "DoStmt", "SwitchStmt",
+                 "CXXForRangeStmt", "CXXTryStmt"):
+            raise Unsupported("statement kind %s in a step body" % k)
+        if k == "IfStmt":
+            parts = s["inner"]
+            if s.get("hasInit") or s.get("hasVar") or len(parts) not in (2, 3):
+                raise Unsupported("if with init-statement / condition variable")
+            cond = self.e(parts[0])
+            pre = self.flush()
+            then = parts[1]
+            els = parts[2] if len(parts) > 2 else None
+            if has_exit(s):
+                bound0 = set(self.bound)
+                t = self.stmts([then] + rest, final) if not self.ends(then) else self.stmts([then], final)
+                self.bound = set(bound0)
+                if els is not None:
+                    e = self.stmts([els] + rest, final) if not self.ends(els) else self.stmts([els], final)
+                else:
+                    e = cont()
+                self.bound = set(bound0)
+                return pre + "if %s then\n%s\nelse\n%s" % (cond, indent(t), indent(e))
+            # no exit inside: join the branches on the variables they assign
+            bound0 = set(self.bound)
+            res = []
+            for br in (then, els):
+                self.frames.append({"decl": set(), "assigned": []})
+                txt = self.stmts([br], JOIN) if br is not None else JOIN
+                fr = self.frames.pop()
+                self.bound = set(bound0)
+                res.append((txt, fr["assigned"]))
+            vs = []
+            for _, a in res:
+                for v in a:
+                    if v not in vs:
+                        vs.append(v)
+            if not vs:
+                return pre + cont()       # branches without effect (cannot happen for well-formed code; kept exact)
+            for v in vs:
+                if v not in bound0:
+                    raise Unsupported("`%s` is assigned in a branch but not defined before the `if`" % v)
+                self.note_assigned(v)
+            tup = vs[0] if len(vs) == 1 else "(%s)" % ", ".join(vs)
+            t, e = res[0][0].replace(JOIN, tup), res[1][0].replace(JOIN, tup)
+            if len(vs) == 1:
+                text = "let %s := (if %s then\n%s\n  else\n%s)\n" % (vs[0], cond, indent(t, 4), indent(e, 4))
+            else:
+                j = "j_%d" % self.fresh_join()
+                text = "let %s := (if %s then\n%s\n  else\n%s)\n" % (j, cond, indent(t, 4), indent(e, 4))
+                for i, v in enumerate(vs):
+                    proj = ".2" * i + (".1" if i < len(vs) - 1 else "")
+                    text += "let %s := %s%s\n" % (v, j, proj)
+            return pre + text + cont()
+        if k in ("BinaryOperator", "CompoundAssignOperator") and (s.get("opcode") == "=" or k == "CompoundAssignOperator"):
+            lhs, rhs = s["inner"]
+            r = self.e(rhs)
+            if k == "CompoundAssignOperator":
+                op = s["opcode"][:-1]
+                if op not in ("+", "-", "*", "/", "%"):
+                    raise Unsupported("compound assignment %s" % s["opcode"])
+                kl, kr = kind_of_type(qt(lhs)), kind_of_type(qt(rhs))
+                ck = kind_of_type(s.get("computeResultType", {}).get("qualType", qt(s)))
+                cur = self.e(lhs)
+                if kl == "int" and ck == "real":
+                    raise Unsupported("compound assignment computing in floating point into an integer")
+                if kl == "real" and kr == "int":
+                    r = "(Fn.ofInt %s)" % r
+                elif kl != kr:
+                    raise Unsupported("compound assignment on %s / %s" % (qt(lhs), qt(rhs)))
+                if op == "/" and kl == "int":
+                    r = "(Int.tdiv %s %s)" % (cur, r)
+                elif op == "%":
+                    r = "(Int.tmod %s %s)" % (cur, r)
+                else:
+                    r = "(%s %s %s)" % (cur, op, r)
+            a = self.assign(lhs, r)
+            return self.flush_before(a) + cont()
+        if k == "ExprWithCleanups":
+            return self.stmts(list(s["inner"]) + rest, final)
+        if k == "UnaryOperator" and s.get("opcode") in ("++", "--"):
+            tgt = s["inner"][0]
+            if kind_of_type(qt(tgt)) != "int":
+                raise Unsupported("++/-- on %s" % qt(tgt))
+            r = "(%s %s (1 : Int))" % (self.e(tgt), "+" if s["opcode"] == "++" else "-")
+            a = self.assign(tgt, r)
+            return self.flush_before(a) + cont()
+        if k == "CXXOperatorCallExpr":
+            nm = self.callee_name(s)
+            if nm == "operator=":
+                lhs, rhs = s["inner"][1], s["inner"][2]
+                r = self.e(rhs)
+                a = self.assign(lhs, r)
+                return self.flush_before(a) + cont()
+            if nm in ("operator+=", "operator-=", "operator*=", "operator/="):
+                lhs, rhs = s["inner"][1], s["inner"][2]
+                op = nm[len("operator")]
+                kl, kr = kind_of_type(qt(lhs)), kind_of_type(qt(rhs))
+                if kl != "cx":
+                    raise Unsupported("%s on %s" % (nm, qt(lhs)))
+                cur, r = self.e(lhs), self.e(rhs)
+                fn = {"+": "add", "-": "sub", "*": "mul", "/": "div"}[op] + ("r" if kr == "real" else "") + "Assign"
+                if kr not in ("cx", "real"):
+                    raise Unsupported("%s with %s" % (nm, qt(rhs)))
+                a = self.assign(lhs, "(Cx.%s %s %s)" % (fn, cur, r))
+                return self.flush_before(a) + cont()
+        raise Unsupported("statement kind %s" % k)
+
+    def flush_before(self, a):
+        # hoisted lets of the right-hand side come first, then the assignment itself (which may carry its own
+        # `let s := …` produced by set_member — those were appended to the text `a`, not to self.pre)
+        return self.flush() + a
+
+    _join = 0
+
+    def fresh_join(self):
+        self._join += 1
+        return self._join
+
+
+def check_members(rec, table, what):
+    """the data members of `rec` must be exactly those of `table` (name -> canonical C++ type)"""
+    got = {c["name"]: canon_type(qt(c)) for c in rec["inner"] if c.get("kind") == "FieldDecl"}
+    for n, t in table.items():
+        if n not in got:
+            raise Unsupported("%s: member %s not found" % (what, n))
+        if got[n] != t:
+            raise Unsupported("%s: member %s has C++ type `%s`, the unit expects `%s`" % (what, n, got[n], t))
+    for n in got:
+        if n not in table:
+            raise Unsupported("%s: unexpected new member %s : %s" % (what, n, got[n]))
+    return [n for n in (c["name"] for c in rec["inner"] if c.get("kind") == "FieldDecl")]
+
+
+def width_note(cxx):
+    t = canon_type(strip_type(cxx))
+    if t in INT_WIDTH:
+        w, sg = INT_WIDTH[t]
+        return " (%d-bit %s)" % (w, "signed" if sg else "unsigned")
+    return ""
+
+
+def struct_text(name, doc, fields):
+    """fields: list of (lean field, lean type, C++ decl text)"""
+    if not fields:
+        return "/-- %s (none) -/\nstructure %s (α : Type) where\n  mk ::\n" % (doc, name)
+    return "/-- %s -/\nstructure %s (α : Type) where\n%s\n" % (
+        doc, name, "\n".join("  /-- `%s`%s -/\n  %s : %s" % (c, width_note(c.rsplit(" ", 1)[0]), f, t) for f, t, c in fields))
+
+
+def loop_skeleton(fn, obj=None):
+    """`fn` must be: declarations; ONE canonical `for (int i = 0; i < n; ++i)` over the whole input array; return.
+    Returns (loop variable, input parameter name, body node)."""
+    arrs = [p for p in params_of(fn) if canon_type(strip_type(qt(p))) in ARRAY_REAL_T | ARRAY_CX_T]
+    if len(arrs) != 1:
+        raise Unsupported("%s: expected exactly one array parameter" % fn.get("name"))
+    xin = arrs[0]["name"]
+    stmts = [c for c in body_of(fn).get("inner", [])]
+    fors = [c for c in stmts if c.get("kind") == "ForStmt"]
+    if len(fors) != 1:
+        raise Unsupported("%s: expected exactly one sample loop, found %d" % (fn.get("name"), len(fors)))
+    f = fors[0]
+    sizes = {}   # locals initialised with x.size()
+
+    def is_size(n):
+        n = unwrap(n)
+        if n.get("kind") == "CXXMemberCallExpr" and len(n["inner"]) == 1:
+            me = unwrap(n["inner"][0])
+            b = unwrap(me["inner"][0])
+            return me.get("name") == "size" and b.get("kind") == "DeclRefExpr" and b["referencedDecl"].get("name") == xin
+        if n.get("kind") == "DeclRefExpr" and n["referencedDecl"].get("name") in sizes:
+            return True
+        if n.get("kind") == "ImplicitCastExpr" and n.get("castKind") == "IntegralCast":
+            return is_size(n["inner"][0])
+        return False
+
+    touches_obj = lambda n: bool(find_all(n, lambda x: x.get("kind") == "CXXThisExpr" or (
+        obj is not None and x.get("kind") == "DeclRefExpr" and x.get("referencedDecl", {}).get("name") == obj)))
+    seen_for = False
+    for c in stmts:
+        k = c.get("kind")
+        if c is f:
+            seen_for = True
+            continue
+        if k == "DeclStmt" and not seen_for:
+            if touches_obj(c):
+                raise Unsupported("%s: a declaration outside the sample loop touches the object" % fn.get("name"))
+            calls = find_all(c, lambda x: x.get("kind") in ("CallExpr", "CXXOperatorCallExpr", "CXXMemberCallExpr"))
+            for d in c["inner"]:
+                if d.get("kind") == "VarDecl" and d.get("inner") and is_size(d["inner"][0]) and "const" in qt(d):
+                    sizes[d["name"]] = True
+                    calls = [x for x in calls if not is_size(x)]
+            if calls:
+                raise Unsupported("%s: call in a declaration outside the sample loop" % fn.get("name"))
+            continue
+        if k == "ReturnStmt" and seen_for and c is stmts[-1]:
+            if touches_obj(c) or find_all(c, lambda x: x.get("kind") in ("CallExpr", "CXXMemberCallExpr", "CXXOperatorCallExpr")):
+                raise Unsupported("%s: the return statement computes" % fn.get("name"))
+            continue
+        raise Unsupported("%s: statement %s outside the sample loop" % (fn.get("name"), k))
+    init, condvar, cond, inc, body = f["inner"]
+    if condvar and condvar.get("kind"):
+        raise Unsupported("loop condition variable")
+    if not (init.get("kind") == "DeclStmt" and len(init["inner"]) == 1 and kind_of_type(qt(init["inner"][0])) == "int"
+            and init["inner"][0].get("inner") and unwrap(init["inner"][0]["inner"][0]).get("kind") == "IntegerLiteral"
+            and unwrap(init["inner"][0]["inner"][0])["value"] == "0"):
+        raise Unsupported("%s: sample loop does not start with `int i = 0`" % fn.get("name"))
+    var = init["inner"][0]["name"]
+    isvar = lambda n: unwrap(n).get("kind") == "DeclRefExpr" and unwrap(n)["referencedDecl"].get("name") == var
+    if not (cond.get("kind") == "BinaryOperator" and cond["opcode"] == "<" and isvar(cond["inner"][0]) and is_size(cond["inner"][1])):
+        raise Unsupported("%s: sample loop condition is not `%s < %s.size()`" % (fn.get("name"), var, xin))
+    if not (inc.get("kind") == "UnaryOperator" and inc["opcode"] == "++" and isvar(inc["inner"][0])):
+        raise Unsupported("%s: sample loop increment is not `++%s`" % (fn.get("name"), var))
+    return var, xin, body
+
+
+def methods_named(rec, name, with_body=True):
+    return [m for m in rec["inner"] if m.get("kind") == "CXXMethodDecl" and m.get("name") == name and
+            (not with_body or any(c.get("kind") == "CompoundStmt" for c in m.get("inner", [])))]
+
+
+def forwards_to(rec, name, target):
+    """`T name(const T& x) { return this->target(x); }`"""
+    ms = [m for m in methods_named(rec, name) if len(params_of(m)) == 1 and
+          canon_type(strip_type(qt(params_of(m)[0]))) not in ARRAY_REAL_T | ARRAY_CX_T and "base_array" not in qt(params_of(m)[0])]
+    if len(ms) != 1:
+        raise Unsupported("%s(const T&) not found" % name)
+    b = body_of(ms[0]).get("inner", [])
+    if len(b) != 1 or b[0].get("kind") != "ReturnStmt":
+        raise Unsupported("%s does not simply forward to %s" % (name, target))
+    c = unwrap(b[0]["inner"][0])
+    if c.get("kind") != "CXXMemberCallExpr" or unwrap(c["inner"][0]).get("name") != target or \
+            unwrap(unwrap(c["inner"][0])["inner"][0]).get("kind") != "CXXThisExpr" or len(c["inner"]) != 2:
+        raise Unsupported("%s does not simply forward to %s" % (name, target))
+    a = unwrap(c["inner"][1])
+    if not (a.get("kind") == "DeclRefExpr" and a["referencedDecl"].get("name") == params_of(ms[0])[0]["name"]):
+        raise Unsupported("%s does not pass its argument to %s" % (name, target))
+
+
+STEPS_HEAD = ("namespace Dsp\nnamespace Gen\n", SCALAR_VARS)
+
+
+# ------------------------------------------------------------------------------------------
+# unit: StepsBase  (array element access, dsplib::sum / max / min on scalars, abs2(cmplx_t))
+
+
+def gen_steps_base():
+    prefetch([("#include <dsplib/array.h>\n", "base_array::operator[]"), ('#include "math.cpp"\n', "dsplib::sum"),
+              ("#include <dsplib/math.h>\n", "dsplib::max"), ("#include <dsplib/math.h>\n", "dsplib::min"),
+              ("#include <dsplib/math.h>\n", "dsplib::abs2")])
+    out = [HEADER % "include/dsplib/array.h (base_array::operator[](int)), lib/math.cpp (sum(arr_real)), "
+                    "include/dsplib/math.h (max / min of two scalars, abs2(cmplx_t))",
+           "import DspVerif.Gen.Cmplx\n" + STEPS_HEAD[0], STEPS_HEAD[1]]
+    # --- operator[](int): index resolution
+    docs = clang_ast("#include <dsplib/array.h>\n", "base_array::operator[]")
+    ops = [d for d in docs if d.get("kind") == "CXXMethodDecl" and d.get("name") == "operator[]" and
+           len(params_of(d)) == 1 and kind_of_type(qt(params_of(d)[0])) == "int" and canon_type(qt(params_of(d)[0])) == "int"]
+    if len(ops) != 2:
+        raise Unsupported("base_array::operator[](int): expected the const and the non-const overload, found %d" % len(ops))
+    texts = []
+    for m in ops:
+        b = [c for c in body_of(m).get("inner", [])]
+        if not (len(b) in (2, 3) and b[0].get("kind") == "DeclStmt" and len(b[0]["inner"]) == 1 and b[-1].get("kind") == "ReturnStmt"):
+            raise Unsupported("base_array::operator[](int): body shape")
+        for mid in b[1:-1]:   # the assert (NDEBUG: `((void)0)`)
+            if find_all(mid, lambda x: x.get("kind") in ("CallExpr", "CXXMemberCallExpr", "CXXOperatorCallExpr", "BinaryOperator",
+                                                          "UnaryOperator", "CompoundAssignOperator")):
+                raise Unsupported("base_array::operator[](int): statement with effect between index and return")
+        idx = b[0]["inner"][0]
+        ret = unwrap(b[-1]["inner"][0])
+        if not (ret.get("kind") == "ArraySubscriptExpr" and unwrap(ret["inner"][0]).get("kind") == "MemberExpr" and
+                unwrap(ret["inner"][0]).get("name") == "_vec" and unwrap(ret["inner"][1]).get("kind") == "DeclRefExpr" and
+                unwrap(ret["inner"][1])["referencedDecl"].get("name") == idx["name"]):
+            raise Unsupported("base_array::operator[](int): does not return _vec[%s]" % idx["name"])
+        pn = params_of(m)[0]["name"]
+        tr = Tr(user_calls={"size": lambda a, n: "size"}, renames={pn: "i"})
+        tr.e_CXXOperatorCallExpr = lambda n, tr=tr: _dep_plus(tr, n)
+        texts.append(tr.e([c for c in idx["inner"] if c.get("kind") != "FullComment"][0]))
+    if texts[0] != texts[1]:
+        raise Unsupported("base_array::operator[](int): const and non-const overloads resolve the index differently")
+    out.append("/-- `base_array<T>::operator[](int i)` (both overloads): the position in `_vec` that index `i` denotes,\n"
+               "`size` = `_vec.size()` -/\ndef arrIdx (size i : Int) : Int :=\n  %s\n" % texts[0])
+    out.append("/-- read `a[i]` through `base_array::operator[](int)`; outside `0 ≤ idx < size` the C++ is undefined\n"
+               "(an `assert`), the value here is `dflt` -/\n"
+               "def arrGet {β : Type} (dflt : β) (a : Array β) (i : Int) : β :=\n  a.getD (arrIdx (Int.ofNat a.size) i).toNat dflt\n")
+    out.append("/-- write `a[i] = v` through `base_array::operator[](int)` -/\n"
+               "def arrSet {β : Type} (a : Array β) (i : Int) (v : β) : Array β :=\n  a.setIfInBounds (arrIdx (Int.ofNat a.size) i).toNat v\n")
+    # --- sum(const arr_real&)
+    docs = clang_ast('#include "math.cpp"\n', "dsplib::sum")
+    fs = [d for d in docs if d.get("kind") == "FunctionDecl" and d.get("name") == "sum" and len(params_of(d)) == 1 and
+          canon_type(strip_type(qt(params_of(d)[0]))) in ARRAY_REAL_T and any(c.get("kind") == "CompoundStmt" for c in d.get("inner", []))]
+    if len(fs) != 1:
+        raise Unsupported("sum(const arr_real&) not found")
+    b = body_of(fs[0]).get("inner", [])
+    an = params_of(fs[0])[0]["name"]
+    ok = len(b) == 1 and b[0].get("kind") == "ReturnStmt"
+    if ok:
+        c = unwrap(b[0]["inner"][0])
+        ok = c.get("kind") == "CallExpr" and Tr().callee_name(c) == "accumulate" and len(c["inner"]) == 4
+    if ok:
+        for a, nm in ((c["inner"][1], "begin"), (c["inner"][2], "end")):
+            a = unwrap(a)
+            ok = ok and a.get("kind") == "CXXMemberCallExpr" and unwrap(a["inner"][0]).get("name") == nm and \
+                unwrap(unwrap(a["inner"][0])["inner"][0]).get("kind") == "DeclRefExpr" and \
+                unwrap(unwrap(a["inner"][0])["inner"][0])["referencedDecl"].get("name") == an
+    if not ok:
+        raise Unsupported("sum(const arr_real&) is not `return std::accumulate(arr.begin(), arr.end(), init)`")
+    if kind_of_type(qt(c["inner"][3])) != "real":
+        raise Unsupported("sum(const arr_real&): the accumulator is not real_t")
+    init = Tr().e(c["inner"][3])
+    out.append("/-- `sum(const arr_real&)` of lib/math.cpp: `std::accumulate(begin, end, init)` = left fold with `+` -/\n"
+               "def sumR (arr : Array α) : α :=\n  arr.foldl (fun acc v => acc + v) %s\n" % init)
+    # --- max / min of two scalars (templates; the bodies are dependent, translated structurally)
+    for name in ("max", "min"):
+        docs = clang_ast("#include <dsplib/math.h>\n", "dsplib::" + name)
+        ts = [d for d in docs if d.get("kind") == "FunctionTemplateDecl" and d.get("name") == name]
+        ts = [t for t in ts for f in [[c for c in t["inner"] if c.get("kind") == "FunctionDecl"][0]] if len(params_of(f)) == 2]
+        if len(ts) != 1:
+            raise Unsupported("template %s(const T1&, const T2&) not found" % name)
+        f = [c for c in ts[0]["inner"] if c.get("kind") == "FunctionDecl"][0]
+        if canon_type(qt(f)) != "auto (const T1 &, const T2 &) -> decltype(v1 + v2)":
+            raise Unsupported("template %s: signature %s" % (name, qt(f)))
+        body = Tr().stmts([body_of(f)], "?", False)
+        ps = [p["name"] for p in params_of(f)]
+        out.append("/-- `dsplib::%s(const T1& v1, const T2& v2)` of include/dsplib/math.h at `T1 = T2 = real_t` -/\n"
+                   "def %sRR (%s : α) : α :=\n%s\n" % (name, name, " ".join(ps), indent(body)))
+    # --- abs2(const cmplx_t&)
+    docs = clang_ast("#include <dsplib/math.h>\n", "dsplib::abs2")
+    fs = [d for d in docs if d.get("kind") == "FunctionDecl" and d.get("name") == "abs2" and len(params_of(d)) == 1 and
+          kind_of_type(qt(params_of(d)[0])) == "cx" and any(c.get("kind") == "CompoundStmt" for c in d.get("inner", []))]
+    if len(fs) != 1:
+        raise Unsupported("abs2(const cmplx_t&) not found")
+    out.append("/-- `abs2(const cmplx_t&)` of include/dsplib/math.h -/\ndef abs2c (%s : Cx α) : α :=\n%s\n" % (
+        params_of(fs[0])[0]["name"], indent(Tr().stmts([body_of(fs[0])], "?", False))))
+    out.append("end Gen\nend Dsp\n")
+    return "\n".join(out)
+
+
+def _dep_plus(tr, n):
+    """`_vec.size() + i` inside the class template (dependent operator+)"""
+    cal = find_all(n["inner"][0], lambda x: x.get("kind") in ("DeclRefExpr", "UnresolvedLookupExpr"))
+    nm = (cal[0].get("name") or cal[0].get("referencedDecl", {}).get("name")) if cal else None
+    if nm == "operator+" and len(n["inner"]) == 3:
+        return "(%s + %s)" % (tr.e(n["inner"][1]), tr.e(n["inner"][2]))
+    raise Unsupported("dependent operator %s" % nm)
+
+
+# signatures by which a call of `max` / `min` is recognised as the dsplib scalar template at real_t
+DSPLIB_MINMAX_SIG = "auto (const double &, const double &) -> decltype(v1 + v2)"
+
+
+def steps_user_calls():
+    def callee_sig(n):
+        return canon_type(qt(unwrap(n["inner"][0])))
+
+    def mm(name):
+        def h(a, n):
+            if callee_sig(n) == DSPLIB_MINMAX_SIG and len(a) == 2:
+                return "(%sRR %s %s)" % (name, a[0], a[1])
+            raise Unsupported("call of %s with signature %s" % (name, callee_sig(n)))
+        return h
+
+    def abs2(a, n):
+        sig = callee_sig(n)
+        if re.match(r"real_t \(const (real_t|double) &\)", sig):
+            return "(abs2r %s)" % a[0]
+        if re.match(r"real_t \(const cmplx_t &\)", sig):
+            return "(abs2c %s)" % a[0]
+        raise Unsupported("call of abs2 with signature %s" % sig)
+
+    def sum_(a, n):
+        if callee_sig(n) == "real_t (const arr_real &)":
+            return "(sumR %s)" % a[0]
+        raise Unsupported("call of sum with signature %s" % callee_sig(n))
+
+    def one_real(lean):
+        def h(a, n):
+            if callee_sig(n) == "real_t (real_t)":
+                return "(%s %s)" % (lean, a[0])
+            raise Unsupported("call of %s with signature %s" % (lean, callee_sig(n)))
+        return h
+
+    return {"max": mm("max"), "min": mm("min"), "abs2": abs2, "sum": sum_, "db2mag": one_real("db2mag"),
+            "mag2db": one_real("mag2db"), "pow2db": one_real("pow2db"), "db2pow": one_real("db2pow")}
+
+
+class EpsCall:
+    """`eps()` is a parameter `eps : α` of every generated function that uses it (as in Gen/Dynamics)"""
+
+    def __init__(self):
+        self.used = False
+
+    def __call__(self, a, n):
+        if a:
+            raise Unsupported("eps(v) with an argument")
+        self.used = True
+        return "eps"
+
+
+def gen_processor(cls, rec, lean, table, entry, outputs, methods_spec, obj=None, subobjs=None, subobj_types=None,
+                  cxx_name=None):
+    """one stateful processor: Params / State structures, helper member functions, step function(s).
+
+    rec          : CXXRecordDecl holding the data members
+    table        : member name -> canonical C++ type (CHECKED)
+    entry        : list of (FunctionDecl / CXXMethodDecl with the sample loop, lean name suffix, sample lean type, out types)
+    methods_spec : member function name -> ("translate",) | ("extern", callable(tr, args) -> str, [members read])
+    """
+    cxx_name = cxx_name or cls
+    order = check_members(rec, table, cxx_name)
+    members = {}
+    for m in order:
+        lt = lean_type_of(table[m], subobj_types)
+        if lt is None:
+            raise Unsupported("%s::%s: C++ type %s has no Lean counterpart" % (cls, m, table[m]))
+        members[m] = (m.lstrip("_").rstrip("_"), lt, "%s %s" % (table[m], m))
+    P, S = "%sStepParams" % cls, "%sStepState" % cls
+
+    def translate_all(state):
+        """returns (texts, reads, writes, uses_eps)"""
+        reads, writes = set(), set()
+        texts = []
+        eps = EpsCall()
+        calls = steps_user_calls()
+        calls["eps"] = eps
+        mtab = {}
+        # helper member functions first (callees), in the order of the spec
+        for mname, spec in methods_spec.items():
+            if spec[0] == "extern":
+                def ext(tr, args, spec=spec):
+                    for f in spec[2]:
+                        tr.mref(f)
+                    return spec[1](tr, args)
+                mtab[mname] = {"extern": ext}
+                continue
+            ms = methods_named(rec, mname)
+            if len(ms) != 1:
+                raise Unsupported("%s::%s not found (or overloaded)" % (cls, mname))
+            m = ms[0]
+            # a first pass decides whether the function writes the state
+            probe = StepTr(obj=None, members=members, state=state, methods=mtab, subobjs=subobjs, user_calls=calls, effect=True)
+            for p_ in params_of(m):
+                probe.declare(probe.var(p_["name"]))
+            probe.stmts([body_of(m)], FALLOFF)
+            effect = bool(probe.writes)
+            tr = StepTr(obj=None, members=members, state=state, methods=mtab, subobjs=subobjs, user_calls=calls, effect=effect)
+            ps = []
+            for p_ in params_of(m):
+                lt = lean_type_of(qt(p_))
+                if lt not in ("α", "Int", "Cx α"):
+                    raise Unsupported("%s::%s parameter %s : %s" % (cls, mname, p_["name"], qt(p_)))
+                tr.declare(tr.var(p_["name"]))
+                ps.append("(%s : %s)" % (tr.var(p_["name"]), lt))
+            rt = lean_type_of(m["type"]["qualType"].split("(")[0])
+            void = m["type"]["qualType"].split("(")[0].strip() == "void"
+            if rt not in ("α", "Int", "Cx α") and not void:
+                raise Unsupported("%s::%s returns %s" % (cls, mname, m["type"]["qualType"]))
+            body = tr.stmts([body_of(m)], "s" if (void and effect) else FALLOFF)
+            if FALLOFF in body:
+                raise Unsupported("%s::%s: control can reach the end without a return" % (cls, mname))
+            reads |= tr.reads
+            writes |= tr.writes
+            reads_state = any(x in state for x in tr.reads)
+            lname = "%s%s" % (lean, "".join(w.capitalize() for w in mname.strip("_").split("_")))
+            ret = ("%s α" % S if void else "%s α × %s" % (S, rt)) if effect else rt
+            sarg = " (s : %s α)" % S if (effect or reads_state) else ""
+            texts.append(("method", mname, lname, "(p : %s α)%s %s" % (P, sarg, " ".join(ps)), ret, body, tr))
+            mtab[mname] = {"lean": lname + (" eps" if False else ""), "effect": effect, "reads": sorted(tr.reads),
+                           "writes": sorted(tr.writes), "reads_state": reads_state, "tr": tr}
+        for fn, suffix, sample_t, out_ts in entry:
+            var, xin, body = loop_skeleton(fn, obj)
+            cells = {o: "%s_%s" % (o, var) for o in outputs}
+            sample = "%s_%s" % (xin, var)
+            tr = StepTr(obj=obj, members=members, state=state, methods=mtab, subobjs=subobjs, user_calls=calls, effect=True,
+                        loop={"var": var, "input": xin, "sample": sample, "outputs": cells,
+                              "cell_types": {cells[o]: t for o, t in zip(outputs, out_ts)}})
+            tr.bound.add(sample)
+            names = set(d["name"] for d in find_all(body, lambda x: x.get("kind") == "VarDecl"))
+            if names & (set(cells.values()) | {sample}):
+                raise Unsupported("a local of the loop body is named like a generated cell")
+            res = "(s, %s)" % ", ".join(cells[o] for o in outputs)
+            text = tr.stmts([body], res)
+            if sorted(tr.cells_written) != sorted(cells.values()):
+                raise Unsupported("%s: the loop body writes the output cells %s, expected %s" % (
+                    fn.get("name"), sorted(tr.cells_written), sorted(cells.values())))
+            reads |= tr.reads
+            writes |= tr.writes
+            texts.append(("loop", fn, suffix, (sample, sample_t, out_ts, xin, var), None, text, tr))
+        return texts, reads, writes, eps
+
+    texts, reads, writes, eps = translate_all(set(members))        # pass 1: everything in the state, to find the writes
+    state = set(writes)
+    texts, reads2, writes2, eps = translate_all(state)             # pass 2: the real split
+    if writes2 != writes:
+        raise Unsupported("%s: unstable state split" % cls)
+    used = reads2 | writes2
+    out = []
+    out.append(struct_text(P, "members of `%s` that the per-sample code only reads (C++ declarations CHECKED against the translator's table)" % cxx_name,
+                           [members[m] for m in order if m in used and m not in state]))
+    out.append(struct_text(S, "members of `%s` that the per-sample code writes" % cxx_name, [members[m] for m in order if m in state]))
+    unused = [m for m in order if m not in used]
+    eps_arg = " (eps : α)" if eps.used else ""
+    for kind, a, b, c, d, body, tr in texts:
+        if kind == "method":
+            # callers pass `eps` along when the unit uses it anywhere (uniform signatures)
+            out.append("/-- `%s::%s(%s)`%s -/\ndef %s%s %s : %s :=\n%s\n" % (
+                cxx_name, a, ", ".join(qt(p_) for p_ in params_of(methods_named(rec, a)[0])),
+                ": members after the call and the value returned" if tr.effect else "", b, eps_arg, c, d, indent(body)))
+        else:
+            sample, sample_t, out_ts, xin, var = c
+            fn = a
+            out.append("/-- loop body of `%s(%s)`: `%s` = `%s[%s]`; result = (members written, %s) -/\n"
+                       "def %sStep%s%s (p : %s α) (s : %s α) (%s : %s) : %s α × %s :=\n%s\n" % (
+                           (cls + "::" if obj is None else "") + fn["name"], ", ".join(qt(p_) for p_ in params_of(fn)),
+                           sample, xin, var, ", ".join("`%s[%s]`" % (o, var) for o in outputs),
+                           lean, b, eps_arg, P, S, sample, sample_t, S, " × ".join(out_ts), indent(body)))
+    return out, eps.used, unused
+
+
+def fix_method_calls(text, names, eps_used):
+    """insert the `eps` argument in calls of the unit's own helper functions"""
+    if not eps_used:
+        return text
+    for n in names:
+        text = re.sub(r"(?<![A-Za-z0-9_])%s p " % re.escape(n), "%s eps p " % n, text)
+    return text
+
+
+# ------------------------------------------------------------------------------------------
+# unit: StepsDyn  (sample loops of Compressor, Limiter, NoiseGate, Agc; MAFilter<real_t>::process)
+
+DYN_TU = "#include <dsplib.h>\n"
+
+
+def gen_steps_dyn():
+    prefetch([(DYN_TU, "Compressor"), (DYN_TU, "Limiter"), (DYN_TU, "NoiseGate")] +
+             [('#include "agc.cpp"\n', f) for f in ("MAFilter", "AgcImpl", "dsplib::_process", "dsplib::Agc", "Agc::process")])
+    out = [HEADER % "include/dsplib/audio/compressor.h, limiter.h, noise-gate.h (loop bodies of `process`, `_smooth_gain`), "
+                    "lib/agc.cpp (loop body of `_process`, real and complex), lib/ma-filter.h (`MAFilter<real_t>::process(const T&)`)",
+           "import DspVerif.Gen.Dynamics\nimport DspVerif.Gen.StepsBase\n" + STEPS_HEAD[0], STEPS_HEAD[1]]
+
+    def gain_extern(lname, fields):
+        def f(tr, args):
+            tr.user_calls["eps"]([], None)
+            return "(%s eps { %s } %s)" % (lname, ", ".join("%s := %s" % (lf, tr.mref(cf)) for cf, lf in fields), args[0])
+        return f
+
+    for cls, lean, table, mspec in (
+        ("Compressor", "compressor",
+         {"T_": "const real_t", "R_": "const int", "W_": "const real_t", "wA_": "real_t", "wR_": "real_t", "gs_": "real_t"},
+         {"_compute_gain": ("extern", gain_extern("compressorGain", [("T_", "T"), ("R_", "R"), ("W_", "W")]), ["T_", "R_", "W_"])}),
+        ("Limiter", "limiter",
+         {"T_": "const real_t", "W_": "const real_t", "wA_": "const real_t", "wR_": "const real_t", "gs_": "real_t"},
+         {"_compute_gain": ("extern", gain_extern("limiterGain", [("T_", "T"), ("W_", "W")]), ["T_", "W_"])}),
+        ("NoiseGate", "noiseGate",
+         {"tlin_": "const real_t", "wA_": "const real_t", "wR_": "const real_t", "tH_": "const int", "cA_": "int", "lg_": "real_t"},
+         {"_smooth_gain": ("translate",)}),
+    ):
+        rec = record(clang_ast(DYN_TU, cls), cls)
+        ms = [m for m in methods_named(rec, "process") if len(params_of(m)) == 1]
+        if len(ms) != 1:
+            raise Unsupported("%s::process(const arr_real&) not found" % cls)
+        if canon_type(strip_type(qt(params_of(ms[0])[0]))) not in ARRAY_REAL_T:
+            raise Unsupported("%s::process takes %s" % (cls, qt(params_of(ms[0])[0])))
+        texts, eps_used, unused = gen_processor(cls, rec, lean, table, [(ms[0], "", "α", ["α", "α"])], ["gain", "out"], mspec)
+        names = [lean + "".join(w.capitalize() for w in k.strip("_").split("_")) for k, v in mspec.items() if v[0] == "translate"]
+        out += [fix_method_calls(t, names, eps_used) for t in texts]
+
+    # --- MAFilter<real_t>::process(const T&): every data member in ONE structure (it is a sub-object of AgcImpl)
+    docs = clang_ast('#include "agc.cpp"\n', "MAFilter")
+    tmpl = [d for d in docs if d.get("kind") == "ClassTemplateDecl" and d.get("name") == "MAFilter"]
+    if len(tmpl) != 1:
+        raise Unsupported("class template MAFilter not found")
+    specs = [c for c in tmpl[0]["inner"] if c.get("kind") == "ClassTemplateSpecializationDecl" and
+             [canon_type(qt(a)) for a in c.get("inner", []) if a.get("kind") == "TemplateArgument"] == ["double"] and
+             any(x.get("kind") == "FieldDecl" for x in c.get("inner", []))]
+    if len(specs) != 1:
+        raise Unsupported("instantiation MAFilter<double> not found")
+    rec = specs[0]
+    table = {"_buf": "base_array<double>", "_n": "int", "_pos": "int", "_accum": "double"}
+    order = check_members(rec, table, "MAFilter<real_t>")
+    members = {m: (m.lstrip("_"), lean_type_of(table[m]), "%s %s" % (table[m], m)) for m in order}
+    ms = [m for m in methods_named(rec, "process") if len(params_of(m)) == 1 and kind_of_type(qt(params_of(m)[0])) == "real"]
+    if len(ms) != 1:
+        raise Unsupported("MAFilter<real_t>::process(const real_t&) not found")
+    forwards_to(rec, "operator()", "process")
+    tr = StepTr(members=members, single=True, user_calls=steps_user_calls(), effect=True)
+    pn = tr.var(params_of(ms[0])[0]["name"])
+    tr.declare(pn)
+    body = tr.stmts([body_of(ms[0])], FALLOFF)
+    if FALLOFF in body:
+        raise Unsupported("MAFilter::process: control can reach the end without a return")
+    out.append(struct_text("MAFilterState", "data members of `MAFilter<real_t>` (lib/ma-filter.h; C++ declarations CHECKED)",
+                           [members[m] for m in order]))
+    out.append("/-- `MAFilter<real_t>::process(const real_t& %s)` (also `operator()(const real_t&)`, which forwards to it):\n"
+               "new members and the returned average -/\n"
+               "def maFilterStep (self : MAFilterState α) (%s : α) : MAFilterState α × α :=\n%s\n" % (pn, pn, indent(body)))
+
+    # --- Agc: `_process<T>(AgcImpl&, const base_array<T>&)`, T = real_t and T = cmplx_t
+    rec = record(clang_ast('#include "agc.cpp"\n', "AgcImpl"), "AgcImpl")
+    table = {"trise": "real_t", "tfall": "real_t", "max_gain": "real_t", "target": "real_t", "gain": "real_t", "maflt": "MAFilterR"}
+    docs = clang_ast('#include "agc.cpp"\n', "dsplib::_process")
+    tmpl = [d for d in docs if d.get("kind") == "FunctionTemplateDecl" and d.get("name") == "_process"]
+    if len(tmpl) != 1:
+        raise Unsupported("function template _process (lib/agc.cpp) not found")
+    inst = {}
+    for f in [c for c in tmpl[0]["inner"] if c.get("kind") == "FunctionDecl"]:
+        ta = [canon_type(qt(a)) for a in f.get("inner", []) if a.get("kind") == "TemplateArgument"]
+        if ta in (["double"], ["cmplx_t"]) and any(c.get("kind") == "CompoundStmt" for c in f.get("inner", [])):
+            inst[ta[0]] = f
+    if sorted(inst) != ["cmplx_t", "double"]:
+        raise Unsupported("_process: instantiations found %s, expected real_t and cmplx_t" % sorted(inst))
+    for f in inst.values():
+        ps = params_of(f)
+        if not (len(ps) == 2 and canon_type(strip_type(qt(ps[0]))) == "AgcImpl" and "&" in qt(ps[0]) and "const" not in qt(ps[0])):
+            raise Unsupported("_process: first parameter is not `AgcImpl&`")
+    # which entry points use which instantiation: Agc::process(arr_real) / (arr_cmplx) must forward to _process(*_d, x)
+    texts, eps_used, unused = gen_processor(
+        "Agc", rec, "agc", table,
+        [(inst["double"], "R", "α", ["α", "α"]), (inst["cmplx_t"], "C", "Cx α", ["α", "Cx α"])], ["gain", "out"], {},
+        obj=params_of(inst["double"])[0]["name"],
+        subobjs={"maflt": {"ops": {"operator()": "maFilterStep", "process": "maFilterStep"}}},
+        subobj_types={"MAFilterR": "MAFilterState α"}, cxx_name="AgcImpl")
+    # the two public entry points hand the whole input to `_process(*_d, x)`
+    arec = record(clang_ast('#include "agc.cpp"\n', "dsplib::Agc"), "Agc")
+    docs = clang_ast('#include "agc.cpp"\n', "Agc::process")
+    seen = set()
+    for d in docs:
+        if d.get("kind") != "CXXMethodDecl" or d.get("name") != "process" or not any(c.get("kind") == "CompoundStmt" for c in d.get("inner", [])):
+            continue
+        ps = params_of(d)
+        b = body_of(d).get("inner", [])
+        okf = len(ps) == 1 and len(b) == 1 and b[0].get("kind") == "ReturnStmt"
+        if okf:
+            calls = find_all(b[0], lambda x: x.get("kind") == "CallExpr")
+            okf = len(calls) == 1 and Tr().callee_name(calls[0]) == "_process" and len(calls[0]["inner"]) == 3
+        if okf:
+            a0, a1 = calls[0]["inner"][1], unwrap(calls[0]["inner"][2])
+            okf = a1.get("kind") == "DeclRefExpr" and a1["referencedDecl"].get("name") == ps[0]["name"] and \
+                [m.get("name") for m in find_all(a0, lambda x: x.get("kind") == "MemberExpr")] == ["_d"] and \
+                not find_all(a0, lambda x: x.get("kind") in ("CallExpr", "CXXMemberCallExpr")) and \
+                len(find_all(b[0], lambda x: x.get("kind") in ("CXXOperatorCallExpr", "BinaryOperator", "UnaryOperator"))) == 1
+        if not okf:
+            raise Unsupported("Agc::process(%s) is not `return _process(*_d, x)`" % (qt(ps[0]) if ps else ""))
+        seen.add(canon_type(strip_type(qt(ps[0]))))
+    if seen != {"arr_real", "arr_cmplx"}:
+        raise Unsupported("Agc::process overloads found: %s" % sorted(seen))
+    if params_of(inst["double"])[0]["name"] != params_of(inst["cmplx_t"])[0]["name"]:
+        raise Unsupported("_process: parameter names differ between instantiations")
+    out += texts
+    out.append("end Gen\nend Dsp\n")
+    return "\n".join(out)
+
+
+# ------------------------------------------------------------------------------------------
 UNITS = {}
 
 
@@ -1164,6 +2272,9 @@ unit("SmallFft", ["lib/fft/small-fft.h", "lib/fft/primes-fft.h"])(gen_smallfft)
 unit("Dynamics", ["lib/math.cpp", "include/dsplib/math.h", "include/dsplib/audio/compressor.h", "include/dsplib/audio/limiter.h"])(gen_dynamics)
 unit("Awgn", ["lib/awgn.cpp"])(gen_awgn)
 unit("Consts", ["lib/primes.cpp", "lib/fft/primes-fft.h", "lib/fft/fft.cpp", "CMakeLists.txt"])(gen_consts)
+unit("StepsBase", ["include/dsplib/array.h", "lib/math.cpp", "include/dsplib/math.h"])(gen_steps_base)
+unit("StepsDyn", ["include/dsplib/audio/compressor.h", "include/dsplib/audio/limiter.h", "include/dsplib/audio/noise-gate.h",
+                  "lib/agc.cpp", "lib/ma-filter.h", "include/dsplib/agc.h"])(gen_steps_dyn)
 
 
 def source_sha(sources):
